@@ -35,6 +35,26 @@ CHECKS['C10'] = dict(
          'cassette/facade over the fake bucket, incl. the default empty prefix. No date windows here (C16).',
     technique='Hypothesis stateful testing against a reference model + cross-cassette differential')
 
+CHECKS['C16'] = dict(
+    engine='zoo+fakes3', category='exploration', design='DESIGN.md 3 C16',
+    text='Exhaustive sweep of every (start, end) and (start, now) pair on an hour grid (thorough: 20-minute grid) over '
+         'four days of recordings saved through the real S3 cassette over the fake bucket with a controlled clock, '
+         'plus Hypothesis-generated minute-level instants mixed with filters, limits, categories and prefixes; '
+         'oracle = set comprehension over the harness list of save instants.',
+    note='Clock control by rebinding the name datetime in s3_tape_cassette (harness-side); fake bucket stamps '
+         'last_modified from the same clock without rounding. UTC process clock assumed, as the property states.',
+    technique='exhaustive enumeration over a time grid + Hypothesis property-based testing against a set model')
+
+CHECKS['C15'] = dict(
+    engine='zoo+fakes3', category='fault_enumeration', design='DESIGN.md 3 C15',
+    text='Hypothesis rule-based state machine over 2-4 real S3 cassettes (read_only x transient x prefixes that are '
+         'string prefixes of one another) sharing one fake bucket with foreign objects, with a crash injected after '
+         'each individual bucket mutation of a save (plus a deterministic sweep of every configuration x crash index); '
+         'oracle over the bucket mutation log and before/after contents, and discoverable => fetchable after every step.',
+    note='Bucket = pbt/fakes3.py behind the real facade; a crash is a BaseException raised right after a mutation is '
+         'applied. Completeness of discoverable recordings is claimed for saves only, as the property states.',
+    technique='Hypothesis stateful testing with injected crash points; invariant over a mutation log')
+
 ENGINES = [
     ('runner', 'pbt/runner.py', 'seed/tier handling, Hypothesis drivers, sharding, evidence writer', None),
     ('refmatch', 'pbt/refmatch.py', 'reference model of metadata filter matching written from the statement',
